@@ -48,6 +48,7 @@ pub struct DieRec {
     pub loc: Option<LocAttr>,
     pub frame_base: Option<String>,
     pub decl_line: Option<u64>,
+    pub decl_file: Option<String>,
     pub type_name: Option<String>,
     pub low_pc: Option<u64>,
     pub high_pc: Option<u64>,
@@ -175,6 +176,7 @@ pub fn user_dies(binary: &Path, krate: &str) -> Option<Vec<DieRec>> {
         }
         else if let Some(r) = lt.strip_prefix("DW_AT_frame_base") { cur.frame_base = Some(paren(r).to_string()); }
         else if let Some(r) = lt.strip_prefix("DW_AT_decl_line") { cur.decl_line = paren(r).parse().ok(); }
+        else if let Some(r) = lt.strip_prefix("DW_AT_decl_file") { cur.decl_file = Some(paren(r).trim_matches('"').to_string()); }
         else if let Some(r) = lt.strip_prefix("DW_AT_type") { cur.type_name = paren(r).split('"').nth(1).map(String::from); }
     }
     if !seen_user || !in_user && all.is_empty() { return None; }
@@ -187,7 +189,8 @@ pub fn user_dies(binary: &Path, krate: &str) -> Option<Vec<DieRec>> {
     let mut res = vec![];
     for (_, d) in &all {
         let inside = d.parent.is_some_and(|p| keep.contains(&p));
-        if inside || (d.tag == "sub" && !d.ranges.is_empty()) {
+        // functions written in the debuggee's own source file (not the std generics instantiated in its unit)
+        if inside || (d.tag == "sub" && !d.ranges.is_empty() && d.decl_file.as_deref().is_some_and(|f| f.ends_with(&marker))) {
             keep.insert(d.off);
             let mut d = d.clone();
             if !inside { d.parent = None; }
@@ -363,16 +366,29 @@ pub fn gen_requests(rng: &mut Rng, n: u64, out: &mut Out) -> Vec<String> {
         out.count(&format!("prog.{name}"), 1);
         let mut stops: BTreeSet<u64> = BTreeSet::new();
         let k = rng.range(10, 18);
-        while (stops.len() as u64) < k {
+        // how often each address is executed: addresses inside `hold`/`leaf` are hit hundreds of times and would crowd out the rest
+        let mut hitcount: BTreeMap<u64, usize> = BTreeMap::new();
+        for st in &c.p.trace { *hitcount.entry(st.pc).or_default() += 1; }
+        let mut budget = 160usize;
+        let mut tries = 0;
+        while (stops.len() as u64) < k && tries < 400 {
+            tries += 1;
             let a = if !interesting.is_empty() && rng.chance(1, 2) { *rng.pick(&interesting) } else { *rng.pick(&pcs) };
+            let h = hitcount.get(&a).copied().unwrap_or(0);
+            if stops.contains(&a) || h > budget || (h > 12 && !rng.chance(1, 6)) { continue; }
+            budget -= h;
             stops.insert(a);
         }
         req.push(format!("{ID} stops {}", enc_list(&stops.iter().collect::<Vec<_>>(), |a| format!("{a:x}"))));
-        // the stops the program will make = projection of the reference trace
+        // the stops the program will make = projection of the reference trace; a random subset of them is explored
         let hits: Vec<usize> = (0..c.p.trace.len()).filter(|i| stops.contains(&c.p.trace[*i].pc)).collect();
-        let max_stops = rng.range(14, 24) as usize;
-        for &pos in hits.iter().take(max_stops) {
+        let want = rng.range(14, 22) as usize;
+        let mut explore: BTreeSet<usize> = BTreeSet::new();
+        if hits.len() <= want { explore.extend(hits.iter().copied()); } else { while explore.len() < want { explore.insert(*rng.pick(&hits)); } }
+        let last = explore.iter().max().copied().unwrap_or(0);
+        for &pos in hits.iter().filter(|h| **h <= last) {
             req.push(format!("{ID} run"));
+            if !explore.contains(&pos) { out.count("op.run.passing", 1); continue; }
             out.count("op.run", 1);
             let frames = true_frames(&c.p, &ur, pos);
             out.count(&format!("frames.{}", frames.len().min(6)), 1);
@@ -397,7 +413,7 @@ pub fn gen_requests(rng: &mut Rng, n: u64, out: &mut Out) -> Vec<String> {
                 let shadowed: Vec<&str> = names.iter().copied().filter(|n| vars.iter().filter(|d| d.name.as_deref() == Some(n)).count() > 1).collect();
                 for n in &names {
                     let multi = shadowed.contains(n);
-                    if !(multi || rng.chance(2, 3)) { continue; }
+                    if !(multi || rng.chance(1, 2)) { continue; }
                     req.push(format!("{ID} lookup {}", enc_str(n)));
                     if vars.iter().any(|d| d.name.as_deref() == Some(*n) && d.type_name.as_deref() == Some("u64")) {
                         req.push(format!("{ID} read {}", enc_str(n)));
